@@ -73,6 +73,8 @@ type VC struct {
 	safeProps []string
 	noSafety  bool
 	typedPtrs bool
+	reveal    map[string]bool
+	opq       map[string]*opqInfo
 	splitInfo string
 	entryEnv  *Env
 	sums      map[string][]*sumInst
